@@ -16,7 +16,8 @@ import json
 claimed = sorted(json.load(open("claimed.json")))
 # a property's check may have components (props/<component>.json): build them as well
 claimed = claimed + sorted({c for p in claimed for c in m.PROPS.get(p, {}).get("components", [])})
-ok, log = m.coq_build(None, ["Model/DecCheck.vo"] + ["Properties/%s.vo" % p for p in claimed])
+extra = sorted({x for p in claimed for x in m.PROPS.get(p, {}).get("extra_properties", [])})
+ok, log = m.coq_build(None, ["Model/DecCheck.vo"] + ["Properties/%s.vo" % p for p in claimed + extra])
 print(log[-3000:])
 if not ok:
     sys.exit(1)
